@@ -9,6 +9,7 @@ Case lines (shared with harness/c05/c05.c):
   setcg <oid|0>                    command_giver at driver level
   # ops <s-expressions>            abstract op list of the LPC function evaluated by the next inject/run
   inject <oid> <fn> [co|po <oid>]  fault at every instruction k of <oid>-><fn>()
+  injectco                         fault at every instruction of the real call_out() sweep (callbacks scheduled by prep)
   run <oid> <fn>                   one evaluation without fault (side effects stay)
   input <oid> <text>               next input line of an interactive (pending input_to)
 op syntax:  (say t) (tmp n ops) (handler id ops) (setreg co|po|cg oid) (withcg oid ops) (install site ok|bad)
@@ -210,6 +211,26 @@ def stepLine (s : DState) (line : String) : DState :=
         | some (_, m1) => ticksOf ob p (pre.foldl (fun mm rv => setRegister rv.1 rv.2 mm) m1)
         | none => 0
       let runs := (List.range n).map (fun j => runTop ob pre p (j + 1) s.m)
+      let outcomes := dedupSorted (runs.map (outcomeText s.names baseCg))
+      let shapes := dedupSorted (runs.filterMap (fun t => t.after.shape))
+      let s3 := outcomes.foldl (fun acc o => acc.emit ("outcome " ++ o)) s2
+      shapes.foldl (fun acc o => acc.emit ("shape " ++ o)) s3
+  | ["injectco"] =>
+    match s.prog with
+    | none => { s with bad := line :: s.bad }
+    | some p =>
+      let baseCg := s.m.cg
+      let s1 := (s.emit ("base " ++ snapshot s.names s.m)).emit ("probe0 " ++ probeText s.names baseCg s.m)
+      let free := runDriver p 0 s.m
+      let s2 := s1.emit ("free " ++ outcomeText s.names baseCg free)
+      let big := 1000000
+      let n := match saveContext s.m with
+        | some (_, m1) => match exec p { m1 with fault := big, out := [], shape := none } with
+          | .ok m' => big - m'.fault
+          | .err m' => big - m'.fault
+          | .crash _ m' => big - m'.fault
+        | none => 0
+      let runs := (List.range n).map (fun j => runDriver p (j + 1) s.m)
       let outcomes := dedupSorted (runs.map (outcomeText s.names baseCg))
       let shapes := dedupSorted (runs.filterMap (fun t => t.after.shape))
       let s3 := outcomes.foldl (fun acc o => acc.emit ("outcome " ++ o)) s2
